@@ -197,8 +197,14 @@ pub fn cell_to_children(index: u64, child_resolution: Option<i32>) -> Result<Vec
     }
 
     // If target resolution equals current resolution, return the original cell
+    // (re-encoded, so that a non-canonical bit pattern comes back as the cell it aliases)
     if new_resolution == current_resolution {
-        return Ok(vec![index]);
+        return Ok(vec![serialize(&A5Cell {
+            origin_id,
+            segment,
+            s,
+            resolution: current_resolution,
+        })?]);
     }
 
     let mut new_origin_ids = vec![origin_id];
@@ -276,8 +282,14 @@ pub fn cell_to_parent(index: u64, parent_resolution: Option<i32>) -> Result<u64,
         ));
     }
 
+    // Re-encoded, so that a non-canonical bit pattern comes back as the cell it aliases
     if new_resolution == current_resolution {
-        return Ok(index);
+        return serialize(&A5Cell {
+            origin_id,
+            segment,
+            s,
+            resolution: current_resolution,
+        });
     }
 
     let resolution_diff = current_resolution - new_resolution;
